@@ -223,7 +223,7 @@ theorem extent_eq (r : Region) (hinv : r.Inv) (h2 : r.ndim = 2) (m : Rat) (hm : 
 theorem filterKeep_ok_inv (f flt : Fld) (keep : NDA Bool) (h : filterKeep f flt = .ok keep) :
     flt.nvdim = 1 ∧ flt.mesh.region.ndim = 2 ∧
     ∃ a, auxOnMesh f flt = .ok a ∧ keep.shape = f.mesh.n ∧
-      ∀ i, keep.get i = !decide ((a.get i).getD 0 0 = 0) := by
+      ∀ i, keep.get i = (!decide ((a.get i).getD 0 0 = 0) && f.valid.get i) := by
   unfold filterKeep at h
   split at h
   · cases h
@@ -242,10 +242,12 @@ theorem auxOnMesh_same (f g : Fld) (h : g.mesh.n = f.mesh.n) : auxOnMesh f g = .
   unfold auxOnMesh
   rw [if_pos h]
 
-/-- a filter field on the same cell counts: a cell keeps its value iff the filter is non-zero there -/
+/-- a filter field on the same cell counts: a cell keeps its value iff the filter is non-zero
+there and the cell is valid -/
 theorem filterKeep_same (f flt : Fld) (h1 : flt.nvdim = 1) (h2 : flt.mesh.region.ndim = 2)
     (hn : flt.mesh.n = f.mesh.n) :
-    ∃ keep, filterKeep f flt = .ok keep ∧ ∀ i, keep.get i = !decide ((flt.data.get i).getD 0 0 = 0) := by
+    ∃ keep, filterKeep f flt = .ok keep ∧
+      ∀ i, keep.get i = (!decide ((flt.data.get i).getD 0 0 = 0) && f.valid.get i) := by
   unfold filterKeep
   rw [if_neg (by simpa using h1), if_neg (by simpa using h2), auxOnMesh_same f flt hn]
   exact ⟨_, rfl, fun _ => rfl⟩
